@@ -395,6 +395,7 @@ func specHeaderV4(op int, htype int, hlen int, hops int, xid string, secs int, f
 //@   after `buf.WriteBytes(magicCookie[:])` cut[header] string(buf.Buffer.data) == v4H(d) && lexOK(buf) && exact(buf) && exact(buf.Buffer) && buf.err == nil && fresh(buf) && fresh(buf.Buffer) && fresh(buf.Buffer.data) && allocated(buf.Buffer.data) && allocated(buf) && allocated(buf.Buffer)
 //@   after `d.Options.Marshal(buf)` assert[options] string(buf.Buffer.data) == v4H(d) + E
 //@   after `buf.Write8(OptionEnd.Code())` cut[end] string(buf.Buffer.data) == v4H(d) + E + specByte(255) && len(buf.Buffer.data) == 241 + len(E) && lexOK(buf) && exact(buf) && exact(buf.Buffer) && buf.err == nil && fresh(buf) && fresh(buf.Buffer) && fresh(buf.Buffer.data) && allocated(buf.Buffer.data) && allocated(buf) && allocated(buf.Buffer)
+//@   after `buf.WriteBytes(bytes.Repeat([]byte{OptionPad.Code()}, bootpMinLen-buf.Len()))` assert[padded] 241 + len(E) < 300 && string(buf.Buffer.data) == v4H(d) + E + specByte(255) + specZeros(300 - 241 - len(E))
 //@   ensures[layout] string(result) == v4H(d) + E + specByte(255) + specZeros(v4Pad(len(E)))
 //@   use lemmaV4Packet(specByte(int(d.OpCode)) + specByte(int(d.HWType)) + specByte(len(d.ClientHWAddr)) + specByte(int(d.HopCount)), string(d.TransactionID[:]), specByte(int(d.NumSeconds)/256) + specByte(int(d.NumSeconds)) + specByte(int(d.Flags)/256) + specByte(int(d.Flags)), specIP4(string(d.ClientIPAddr)), specIP4(string(d.YourIPAddr)), specIP4(string(d.ServerIPAddr)), specIP4(string(d.GatewayIPAddr)), specFixed(string(d.ClientHWAddr), 16, 16), specFixed(d.ServerHostName, 63, 64), specFixed(d.BootFileName, 127, 128), E, v4Pad(len(E)))
 //@   ensures[fresh] fresh(result)
